@@ -1,7 +1,7 @@
 (* Extraction of the executable models and checkers (run outside the main build:
    cd ocaml/extracted && coqc -Q ../../coq ES ../../coq/Extract.v). *)
 From Coq Require Extraction ExtrOcamlBasic ExtrOcamlString.
-From ES Require Import Base Ssb.Param Ssb.Cfg Ssb.Equiv Ssb.Machine Lang.Ast Lang.Spec Lang.SrcSem Lang.Inline Lang.Static Lang.MacroStatic
+From ES Require Import Base Ssb.Param Ssb.Cfg Ssb.Equiv Ssb.Machine Lang.Ast Lang.Spec Lang.SrcSem Lang.Inline Lang.Static Lang.Domain Lang.MacroStatic
   Comp.Passes Comp.Closed Text.Dec SM.Model Script.Model Script.Shift Pyg.Engine Gen.PygTable Text.Str Text.MStr Text.MLex Text.Meta Text.Num Dec.Writer Comp.PopSem Comp.BackEnd Comp.FinalizeSem Comp.ActSem Comp.StripSem Comp.MacroRA.
 Extraction Language OCaml.
 Extraction "extracted.ml"
@@ -9,7 +9,7 @@ Extraction "extracted.ml"
   strip finalize remove_all passes ordered closed_b
   serialize deserialize rewrite_offsets
   print_script compile_script renumber cli_number
-  inline well_scoped program_has unknown_macro too_few_args self_recursive trap
+  inline well_scoped events_ok program_has unknown_macro too_few_args self_recursive trap
   lex pyg_table table_ok
   print_single read_single single_exact lex_body
   print_multi read_multi multi_exact lex_multi occurs3
